@@ -161,6 +161,25 @@ def run(chk):
         chk.ok("C15.regular", na[0], "a non-regular file is refused before anything is opened")
     else:
         chk.violation("C15.regular", mk, "if not file_path: return NOT_ACCEPTABLE", "before open()", "a non-regular file is opened")
+    # ---- rangeguard: the satisfiability test judges the *normalised* offset (check-then-modify rule) ----
+    from sa import dataflow as D
+    from sa.cfg import cfg_of as _cfg
+
+    po = repo.func(FR, "FileResponse._prepare_open_file")
+    gp = _cfg(po.node)
+    tests = [n for n in gp.nodes if n.kind == "test" and any(isinstance(c, ast.Compare) and {norm.raw(c.left), norm.raw(c.comparators[0])} == {"start", "file_size"} for c in ast.walk(n.ast))
+             and any("HTTPRequestRangeNotSatisfiable" in norm.raw(s2) for s2 in (n.ast.parent.body if isinstance(getattr(n.ast, "parent", None), ast.If) else []))]
+    if not tests:
+        chk.violation("C15.rangeguard", po, "if start >= file_size: <416>", "unsatisfiable-range test on the start offset", "a start offset at or beyond the end of the file is not answered 416")
+    for t in tests:
+        ge = any(isinstance(c, ast.Compare) and isinstance(c.ops[0], (ast.GtE, ast.Gt)) and norm.raw(c.left) == "start" for c in ast.walk(t.ast))
+        later = D.defs_reachable(gp, [(t, "F" if ge else "T")], "start")
+        if later:
+            for d in later:
+                chk.violation("C15.rangeguard", d.ast, K.short(d.ast), "no redefinition of `start` after the `start >= file_size` test",
+                              "the 416 test judges the raw parsed start, which is then rewritten (suffix ranges are negative before normalisation): `bytes=-N` on an empty file passes the test and is answered 206 with a malformed Content-Range")
+        else:
+            chk.ok("C15.rangeguard", t.ast, "the 416 test is applied to the final value of `start` (no redefinition between the test and the Content-Range / seek uses)")
     # ---- rangelex --------------------------------------------------------------------------------------------------------------------
     hr = repo.func(WR, "BaseRequest.http_range")
     pat = norm.fn_defs(hr.node).defs.get("pattern", [])
